@@ -221,6 +221,7 @@ pub fn movie_shell(tracks: Vec<Track>) -> Movie {
         mehd: None,
         emsg: None,
         xforms: vec![],
+        large_moof: false,
     }
 }
 
@@ -354,8 +355,9 @@ pub fn frag_movie(max_tracks: usize, max_frags: usize, max_run: usize) -> impl S
         prop::option::of((0u8..2, any::<u32>().prop_map(|x| x as u64))),
         prop::option::weighted(0.2, 0u8..2),
         any::<bool>(),
+        prop::bool::weighted(0.2),
     )
-        .prop_map(|(tracks, frags, ts, mehd, emsg, same_trex)| {
+        .prop_map(|(tracks, frags, ts, mehd, emsg, same_trex, large_moof)| {
             let n = tracks.len();
             let mut tv: Vec<Track> = tracks
                 .into_iter()
@@ -423,6 +425,7 @@ pub fn frag_movie(max_tracks: usize, max_frags: usize, max_run: usize) -> impl S
             m.timescale = ts;
             m.mehd = mehd;
             m.emsg = emsg;
+            m.large_moof = large_moof;
             m
         })
 }
